@@ -142,7 +142,11 @@ class Closed(Suite):
             r1, r2, h = a
             s = VolSphere(P(0), r1)
             f = VolFrustumCone(P(h), r2, P(0), r1) if case["flip"] else VolFrustumCone(P(0), r1, P(h), r2)
-            v = (s.intersect(f) if kind == "concentric" else s.union(f)).get_volume()
+            if case["seed"] % 3 == 0 and kind == "sfunion":
+                # either solid may be the receiver of the closed-form UNION (frustum.intersect(sphere) is the sampling path: outside)
+                v = f.union(s).get_volume()
+            else:
+                v = (s.intersect(f) if kind == "concentric" else s.union(f)).get_volume()
         return {"v": float(v)}
 
     def lines(self, case, res):
